@@ -20,6 +20,7 @@ import JSV.Proofs.IsoValid
 import JSV.Proofs.RefineCheck
 import JSV.Proofs.ResIsoNorm
 import JSV.Proofs.MshIsTree
+import JSV.Proofs.ResIsoNormDocs
 namespace JSV.C05
 open JSV Go
 
@@ -626,6 +627,63 @@ theorem roundtrip_tree_meaning_resolved (st : Store) (id : NodeId) (j : Json) (s
       (fun n hn => by simp only [Go.nodeWF, Bool.and_eq_true] at hn; exact hn.1) hwf))
   exact treeEq_resolves_unmarshal st st₂ st₂' j env hnd hk hs hs' hu hte hok fuel base rs h₁
 
+/-- **`roundtrip_tree_meaning_resolved_docs`**: the same WITH documents fetched through a Loader (no `NoDocs`).  The
+    Loader universe is shared by both sides: `L` is a set of schemas (ids, nil ones included) that contains the root of
+    every document the Loader hands out, is closed under the schema-valued fields, is disjoint from the tree of `id`
+    (`hLdis`, as in `C20.clone_validates_same_docs`), and is also present, unchanged, in the store `st₂` the schema is
+    read back into (`hLst₂`, `hLeq`: e.g. `st₂ = st`, the schema is read back into the heap it was written from, next
+    to the Loader documents).  If `Resolve` of the original returns normally — references into Loader documents, and
+    from Loader documents back into the root document, included — then `Resolve` of the tree read back against the same
+    Loader returns normally with the same draft and the same Loader log (the same URIs fetched in the same order), and
+    the two accept exactly the same instances.
+    How the store-wide normalisation of `treeEq_resolves_partial` is avoided: the normal forms are applied to every schema
+    OUTSIDE `L` only (`Go.RIso.mapOff`; JSV/Proofs/ResIsoNormDocs.lean), so the two sides still agree on the Loader
+    universe; the tree of `id` lies outside `L`, in the set of schemas checkStructure registers for it. -/
+theorem roundtrip_tree_meaning_resolved_docs (st : Store) (id : NodeId) (j : Json) (st₂ : Store) (id' : NodeId)
+    (st₂' : Store) (hwf : TreeWF st id) (hj : Go.marshal st id = .ok j) (hu : Go.unmarshal j st₂ = .ok (id', st₂'))
+    (hk : Go.RPerm.StoreKeysNodup st) (hs : st.size ≤ 1000000000) (hs' : st₂'.size ≤ 1000000000)
+    (env : Go.Env) (L : NodeId → Prop)
+    (hLst₂ : ∀ a, L a → a < st₂.size ∨ 1000000000 ≤ a) (hLeq : ∀ a, L a → st₂.get? a = st.get? a)
+    (hLcl : ∀ a n, L a → st.get? a = some n → ∀ f, f ∈ n.childFields → ∀ x, x ∈ f.ids → L x)
+    (hLroots : ∀ t key l, env.loader = some t → Json.lookup key t = some (.doc l) → L l)
+    (hLdis : ∀ fresh, Go.checkStructure st (st.size + 2) [(id, "")] [] = .ok fresh → ∀ a, L a → a ∉ fresh.map (·.1))
+    (fuel : Nat) (base : String) (rs : Go.Resolved)
+    (h₁ : Go.resolve { env with st := st } fuel id base = .ok rs) :
+    ∃ rs', Go.resolve { env with st := st₂' } fuel id' base = .ok rs' ∧ rs.draft = rs'.draft ∧ rs.log = rs'.log ∧
+      ∀ (reMatch : String → String → Bool) (vfuel : Nat) (inst : Json), Json.WF inst = true →
+        Inv.OutSim (Spec.evalFuel (Go.RIso.specOf st rs reMatch) vfuel [] id inst)
+            (Spec.evalFuel (Go.RIso.specOf st₂' rs' reMatch) vfuel [] id' inst) ∧
+          Spec.valid (Go.RIso.specOf st rs reMatch) vfuel id inst =
+            Spec.valid (Go.RIso.specOf st₂' rs' reMatch) vfuel id' inst := by
+  obtain ⟨id'', st₂'', hu', hte, -⟩ := roundtrip_tree st id j st₂ hwf hj
+  rw [hu] at hu'
+  cases hu'
+  have hok : Go.treeAll Go.RIso.orderOK st (st.size + 2) id = true :=
+    Go.treeAll_mono (Go.treeAll_mono (Go.treeAll_imp
+      (fun n hn => by
+        simp only [Go.nodeWF, Bool.and_eq_true] at hn
+        exact Go.RIso.orderOK_of_nodeOK n hn.1) hwf))
+  obtain ⟨hext, -⟩ := unmarshal_tree_upto_nil j st₂ id' st₂' hu
+  obtain ⟨f', fresh', hcs', hiv⟩ := unmarshal_is_tree j st₂ id' st₂' _ hu hte.full hs'
+  obtain ⟨fresh₀, hcs₀⟩ := Go.RIso.resolve_ok_cs { env with st := st } fuel id base rs h₁
+  obtain ⟨rs', h₂, e1, e2, e3⟩ := Go.RIso.treeEq_resolves_docs st st₂' env L (fun x => x ∈ Go.RInv.ids fresh₀) hk hs hs'
+    hte hok (Go.RInv.checkStructure_root_mem st _ id fresh₀ hcs₀)
+    (fun x n hx hn c hc => Go.RInv.checkStructure_closed st _ _ _ _ hcs₀
+      (fun _ hid => absurd hid (by simp [Go.RInv.ids])) x hx n hn c hc)
+    (fun x hL hx => hLdis fresh₀ hcs₀ x hL hx)
+    (fun x hL => by
+      rcases hLst₂ x hL with hlt | hge
+      · rw [hext.2 x hlt, hLeq x hL]
+      · rw [Go.get?_eq_none_iff.2 (Nat.le_trans hs hge), Go.get?_eq_none_iff.2 (Nat.le_trans hs' hge)])
+    hLcl hLroots fuel base h₁ hcs'
+    (fun x hL hm => by
+      have := hiv x hm
+      rcases hLst₂ x hL with hlt | hge
+      · exact absurd hlt (Nat.not_lt.2 this.1)
+      · exact absurd (Nat.lt_of_lt_of_le this.2 hs') (Nat.not_lt.2 hge))
+  exact ⟨rs', h₂, e1, e2, fun reMatch vfuel inst hinst =>
+    ⟨e3 reMatch vfuel inst hinst, Iso.valid_of_outSim (e3 reMatch vfuel inst hinst)⟩⟩
+
 /-! ### What is missing for the full round trip
   * `roundtrip_tree_meaning_resolved` (the two trees accept the same instances, references included) is proved for the two trees
     EACH RESOLVED ON ITS OWN: `Resolve` of the tree read back returns normally whenever `Resolve` of the original does
@@ -1040,6 +1098,110 @@ example : (match Go.resolve exRTEnv 1 0 "" with
        Spec.valid (Go.RIso.specOf exRT rs fun _ _ => false) 4 0 (.obj [("a", .str "x"), ("b", .null), ("c", .null)]),
        Spec.valid (Go.RIso.specOf exRT rs fun _ _ => false) 4 0 (.obj [("a", .num 1)])]
     | _ => []) = [some true, some false, some false] := by
+  decide +kernel
+
+/-! ### `roundtrip_tree_meaning_resolved_docs` is not vacuous: a root document with two references INTO a Loader
+  document (by pointer and by `$anchor`), read back into the heap it was written from, next to the Loader document -/
+
+def exDocRT : Store := #[
+  { id := "http://a/root.json", allOf := some [1], properties := some [("p", 2)] },   -- 0
+  { ref := "other.json#/$defs/x" },                                                    -- 1
+  { ref := "other.json#tag" },                                                         -- 2
+  { defs := some [("x", 4), ("y", 5)] },                                               -- 3: http://a/other.json
+  { type := "string" },                                                                -- 4
+  { anchor := "tag", minLength := some 2 }]                                            -- 5
+def exDocRTEnv : Go.Env :=
+  { st := exDocRT, reOk := fun _ => true, loader := some [("http://a/other.json", .doc 3)] }
+/-- the schemas of the Loader universe -/
+def exDocRTL (a : NodeId) : Prop := a ∈ [3, 4, 5]
+
+theorem exDocRT_wf : TreeWF exDocRT 0 := by decide
+
+example : ∃ j id' st₂' rs rs', Go.marshal exDocRT 0 = .ok j ∧ Go.unmarshal j exDocRT = .ok (id', st₂') ∧
+    Go.resolve exDocRTEnv 2 0 "" = .ok rs ∧ Go.resolve { exDocRTEnv with st := st₂' } 2 id' "" = .ok rs' ∧
+    rs.log = rs'.log ∧
+      ∀ (reMatch : String → String → Bool) (vfuel : Nat) (inst : Json), Json.WF inst = true →
+        Spec.valid (Go.RIso.specOf exDocRT rs reMatch) vfuel 0 inst =
+          Spec.valid (Go.RIso.specOf st₂' rs' reMatch) vfuel id' inst := by
+  have hall : (match Go.marshal exDocRT 0 with
+      | .ok j => match Go.unmarshal j exDocRT with
+        | .ok r => decide (r.2.size ≤ 1000000000)
+        | _ => false
+      | _ => false) = true := by decide +kernel
+  have hres : (Go.resolve exDocRTEnv 2 0 "").isOk = true := by decide +kernel
+  have hfresh : (match Go.checkStructure exDocRT (exDocRT.size + 2) [(0, "")] [] with
+      | .ok fresh => fresh.map (·.1) == [0, 1, 2]
+      | _ => false) = true := by decide
+  cases hj : Go.marshal exDocRT 0 with
+  | ok j =>
+    rw [hj] at hall
+    dsimp only at hall
+    cases hu : Go.unmarshal j exDocRT with
+    | ok r =>
+      obtain ⟨id', st₂'⟩ := r
+      rw [hu] at hall
+      dsimp only at hall
+      have hs' : st₂'.size ≤ 1000000000 := of_decide_eq_true hall
+      cases h₁ : Go.resolve exDocRTEnv 2 0 "" with
+      | ok rs =>
+        obtain ⟨rs', h₂, -, e2, e3⟩ := roundtrip_tree_meaning_resolved_docs exDocRT 0 j exDocRT id' st₂' exDocRT_wf hj hu
+          (Go.RPerm.storeKeysNodup_of_check _ (by decide)) (by decide) hs' exDocRTEnv exDocRTL
+          (fun a ha => Or.inl (by
+            have : ∀ x ∈ [3, 4, 5], x < exDocRT.size := by decide
+            exact this a ha))
+          (fun _ _ => rfl)
+          (fun a n ha hn f hf x hx => by
+            have hcl : ∀ a ∈ [3, 4, 5], ∀ n, exDocRT.get? a = some n → ∀ f ∈ n.childFields, ∀ x ∈ f.ids, x ∈ [3, 4, 5] := by
+              intro a ha
+              simp only [List.mem_cons, List.not_mem_nil, or_false] at ha
+              rcases ha with rfl | rfl | rfl <;> intro n hn <;> cases hn <;> decide
+            exact hcl a ha n hn f hf x hx)
+          (fun t key l ht hk => by
+            cases ht
+            simp only [Json.lookup_cons, Json.lookup_nil] at hk
+            split at hk
+            · cases hk; show 3 ∈ [3, 4, 5]; decide
+            · cases hk)
+          (fun fresh hf a ha hm => by
+            rw [hf] at hfresh
+            have he : fresh.map (·.1) = [0, 1, 2] := by simpa using hfresh
+            rw [he] at hm
+            have : ∀ x ∈ [3, 4, 5], x ∉ [0, 1, 2] := by decide
+            exact this a ha hm)
+          2 "" rs h₁
+        exact ⟨j, id', st₂', rs, rs', rfl, hu, rfl, h₂, e2, fun reMatch vfuel inst hinst =>
+          (e3 reMatch vfuel inst hinst).2⟩
+      | fuel => rw [h₁] at hres; cases hres
+      | panic => rw [h₁] at hres; cases hres
+      | err => rw [h₁] at hres; cases hres
+    | fuel => rw [hu] at hall; cases hall
+    | panic => rw [hu] at hall; cases hall
+    | err => rw [hu] at hall; cases hall
+  | fuel => rw [hj] at hall; cases hall
+  | panic => rw [hj] at hall; cases hall
+  | err => rw [hj] at hall; cases hall
+
+/-- … the Loader is called once on either side, and the references of the tree read back (root 8; "p" ↦ 6,
+    allOf[0] ↦ 7: "properties" is written first) land in the Loader document … -/
+example : (match Go.marshal exDocRT 0 with
+    | .ok j => match Go.unmarshal j exDocRT with
+      | .ok (id', st') => (Go.resolve { exDocRTEnv with st := st' } 2 id' "").bind fun rs =>
+          .ok (rs.log, rs.infos.map fun (e : NodeId × Go.Info) => (e.1, e.2.resolvedRef))
+      | _ => .err
+    | _ => .err) =
+    .ok (["http://a/other.json"], [(8, none), (7, some 4), (6, some 5), (3, none), (4, none), (5, none)]) := by
+  decide +kernel
+
+/-- … and the verdicts go through it: a string of length 2 is valid, a number is not -/
+example : (match Go.marshal exDocRT 0 with
+    | .ok j => match Go.unmarshal j exDocRT with
+      | .ok (id', st') => match Go.resolve { exDocRTEnv with st := st' } 2 id' "" with
+        | .ok rs =>
+          [Spec.valid (Go.RIso.specOf st' rs fun _ _ => false) 4 id' (.str "xy"),
+           Spec.valid (Go.RIso.specOf st' rs fun _ _ => false) 4 id' (.num 1)]
+        | _ => []
+      | _ => []
+    | _ => []) = [some true, some false] := by
   decide +kernel
 
 /-- an EMPTY non-nil `Vocabulary` map (finding D26, repaired in /repo c50c33e).  Beside a `$schema` other than 2020-12
